@@ -213,7 +213,7 @@ def status_monotone(ctx):
 @rule('C06', 'publish-guard', configs=('default', 'p256'))
 def publish_guard(ctx):
     F = ctx.F
-    fam = F.family('core::MasterSecretKey::mpk')
+    fam = lib.reach_bodies(F, 'core::MasterSecretKey::mpk')
     n = 0
     for body in fam:
         for c in body.calls(r'RightSecretKey::cpk$'):
@@ -232,6 +232,21 @@ def publish_guard(ctx):
                     ok = True
                 else:
                     why = 'the tested flag is not read at the front of the chain'
+            if not ok and body.kind == 'Closure':
+                # `flag.then(|| .. cpk ..)`: the closure runs iff the flag is true
+                for (pb, cc, idx) in lib.closure_consumers(F, body):
+                    if cc.is_(r'^core::bool::<impl bool>::then$|bool>::then$') and cc.args:
+                        fl = cc.args[0]
+                        pl = None
+                        cur, d = lib.resolve_copy(pb, op_local(fl)) if is_place(fl) else (None, None)
+                        if d is not None and d.kind == 'assign' and d.rv['k'] == 'use' and is_place(d.rv['a']):
+                            pl = pb.through_ref(op_place(d.rv['a']))
+                        if pl is not None and flags.is_flag_place(pb, pl):
+                            kind, hc = flags.classify_pair_origin(F, pb, pl['l'])
+                            if kind == 'head':
+                                ok = True
+                            else:
+                                why = 'the tested flag is not read at the front of the chain'
             ctx.check(ok, body.root or body.key, 'cpk<=front-flag',
                       'a right public key is derived (cpk, line %d) but %s: deactivated rights would be published'
                       % (c.ln, why), 'dominated by the true edge of front().0', c.where())
@@ -241,14 +256,15 @@ def publish_guard(ctx):
     for body in F.fns():
         if body.calls(r'RightSecretKey::cpk$'):
             callers.add(body.root or body.key)
-    ctx.check(callers == {'core::MasterSecretKey::mpk'}, 'core::RightSecretKey::cpk', 'who-may-call',
+    ctx.check(bool(callers) and all(lib.only_reached_via(F, k, 'core::MasterSecretKey::mpk') for k in callers),
+              'core::RightSecretKey::cpk', 'who-may-call',
               'cpk is called from %s; only MasterSecretKey::mpk (which tests the activation flag) may derive public '
               'keys from master secrets' % sorted(callers), 'only mpk', '')
     allowed = {'core::MasterSecretKey::mpk',
                'core::serialization::<impl cosmian_crypto_core::bytes_ser_de::Serializable for core::MasterPublicKey>::read'}
     for (body, ln, kind, op) in field_writers(F, 'core::MasterPublicKey', 'encryption_keys'):
         root = body.root or body.key
-        ctx.check(root in allowed, root, 'writes MasterPublicKey.encryption_keys',
+        ctx.check(root in allowed or lib.only_reached_via(F, root, 'core::MasterSecretKey::mpk'), root, 'writes MasterPublicKey.encryption_keys',
                   '%s writes the published keys (line %d); only mpk and read may' % (body.key, ln), '', body.where(ln))
 
 
